@@ -125,6 +125,12 @@ def readExact (n : Nat) : P Bytes := fun s =>
 /-- plain `stream.read(n)`: silently short at end of file -/
 def readUpTo (n : Nat) : P Bytes := fun s => .ok (s.take n, s.drop n)
 
+/-- one statement after the other on the same stream; an exception propagates -/
+def bindP {α β : Type} (p : P α) (f : α → P β) : P β := fun s =>
+  match p s with
+  | .error e => .error e
+  | .ok (a, s') => f a s'
+
 /-! ## UTF-8 (Python's strict decoder: no overlongs, no surrogates, ≤ U+10FFFF) -/
 
 def isCont (b : UInt8) : Bool := 0x80 ≤ b && b ≤ 0xBF
@@ -399,31 +405,10 @@ def writeMetaBody (pool : List Bytes) (m : RawMetadata) : Bytes :=
     (writeStr m.reinsuranceBasis ++ (writeStr m.lossDefinition ++ (writeLimit m.limit ++
       (writeDict pool m.details ++ writeDict pool m.lossDetails))))))
 
-def readMetaBody (pool : List (Option Bytes)) : P RawMetadata := fun s =>
-  match readStr s with
-  | .error e => .error e
-  | .ok (rb, s) =>
-  match readStr s with
-  | .error e => .error e
-  | .ok (co, s) =>
-  match readStr s with
-  | .error e => .error e
-  | .ok (cu, s) =>
-  match readStr s with
-  | .error e => .error e
-  | .ok (re, s) =>
-  match readStr s with
-  | .error e => .error e
-  | .ok (ld, s) =>
-  match readLimit s with
-  | .error e => .error e
-  | .ok (lim, s) =>
-  match readDict pool s with
-  | .error e => .error e
-  | .ok (det, s) =>
-  match readDict pool s with
-  | .error e => .error e
-  | .ok (ldet, s) =>
+def readMetaBody (pool : List (Option Bytes)) : P RawMetadata :=
+  bindP readStr fun rb => bindP readStr fun co => bindP readStr fun cu => bindP readStr fun re =>
+  bindP readStr fun ld => bindP readLimit fun lim => bindP (readDict pool) fun det =>
+  bindP (readDict pool) fun ldet => fun s =>
     .ok ({ riskBasis := rb, country := co, currency := cu, reinsuranceBasis := re,
            lossDefinition := ld, limit := lim, details := det, lossDetails := ldet }, s)
 
@@ -463,32 +448,21 @@ def cellInit (c : RawCell) : Except Err RawCell :=
     | some p => if c.ev ≤ p then .error .valueError else .ok c
     | none => .ok c
 
+/-- the constructor call at the end of `_read_cell` -/
+def finishCell (c : RawCell) : P RawCell := fun s =>
+  match cellInit c with
+  | .error e => .error e
+  | .ok c => .ok (c, s)
+
+/-- `_read_cell`: keyword arguments are evaluated in order — three dates, the values dict, and for
+`IncrementalCell` the previous evaluation date — then the constructor runs -/
 def readCellBody (pool : List (Option Bytes)) (kind : CellKind) (md : RawMetadata) : P RawCell :=
-  fun s =>
-  match readDate s with
-  | .error e => .error e
-  | .ok (ps, s) =>
-  match readDate s with
-  | .error e => .error e
-  | .ok (pe, s) =>
-  match readDate s with
-  | .error e => .error e
-  | .ok (ev, s) =>
-  match readDict pool s with
-  | .error e => .error e
-  | .ok (vals, s) =>
+  bindP readDate fun ps => bindP readDate fun pe => bindP readDate fun ev =>
+  bindP (readDict pool) fun vals =>
     match kind with
-    | .incremental =>
-      match readDate s with
-      | .error e => .error e
-      | .ok (pv, s) =>
-        match cellInit { kind := kind, ps := ps, pe := pe, ev := ev, prev := some pv, values := vals, md := md } with
-        | .error e => .error e
-        | .ok c => .ok (c, s)
-    | _ =>
-      match cellInit { kind := kind, ps := ps, pe := pe, ev := ev, prev := none, values := vals, md := md } with
-      | .error e => .error e
-      | .ok c => .ok (c, s)
+    | .incremental => bindP readDate fun pv =>
+        finishCell { kind := kind, ps := ps, pe := pe, ev := ev, prev := some pv, values := vals, md := md }
+    | _ => finishCell { kind := kind, ps := ps, pe := pe, ev := ev, prev := none, values := vals, md := md }
 
 /-! ## The record loop and the file -/
 
